@@ -1,5 +1,6 @@
 """C06 kernel hook redirects exactly the protected connects, records the true caller."""
 import os
+import re
 import shutil
 import subprocess
 import vlib
@@ -175,6 +176,59 @@ for line in sys.stdin:
     os.waitpid(pid, 0)
     sys.stdout.write(out); sys.stdout.flush()
 """
+
+
+def redirect_switch_under_lookups(chk, binp, sd, prop_text="a protected destination's redirect policy in the kernel differs from what the agent was last asked to set"):
+    """the running kernel again: the three redirect policies are switched on and off through the agent's own update_*_redirect_policy
+    (shared redirector state; the loaded object behind its mutex) while proxy connections look callers up in the audit map through the
+    same mutex. After every switch the kernel's policy map must say what was asked for: a switch that is dropped because the object
+    is busy leaves a protected destination unredirected (or redirected after the channel was disabled)"""
+    import socket
+    obj = os.path.join(sd, "ebpf_cgroup.sw.o")
+    cc = subprocess.run(["clang", "-target", "bpf", "-O2", "-g", "-Wno-everything", "-D__TARGET_ARCH_x86", "-I", os.path.join(vlib.VERIF, "ebpf_sim", "bpfinc"),
+                         "-I/usr/include/x86_64-linux-gnu", "-c", os.path.join(vlib.REPO, "linux-ebpf", "ebpf_cgroup.c"), "-o", obj],
+                        stdout=subprocess.PIPE, stderr=subprocess.STDOUT, text=True)
+    if cc.returncode != 0:
+        chk.notes.append("redirect-switch stage skipped: the program does not compile for the bpf target here")
+        return
+    r, w = os.pipe()
+    eng = subprocess.Popen([binp], stdin=subprocess.PIPE, stdout=subprocess.DEVNULL, stderr=subprocess.DEVNULL, pass_fds=(w,), cwd=sd,
+                           env=dict(os.environ, VERIF_ENGINE="kernel", VERIF_OUT="/dev/fd/%d" % w))
+    os.close(w)
+    eout = os.fdopen(r)
+    try:
+        def ctl(line):
+            eng.stdin.write((line + "\n").encode()); eng.stdin.flush()
+            return eout.readline().strip()
+        ld = ctl("load " + vlib.hx(obj))
+        if ld != "ok":
+            chk.notes.append("redirect-switch stage skipped: the object does not load here")
+            return
+        rounds = 90 if chk.tier == "quick" else 1500
+        got = ctl("contend 3080 %d 3" % rounds)
+        mm = re.match(r"lookups=(\d+) wrong=(\S+)$", got)
+        if not mm:
+            chk.disagreement("kernel", {"step": "redirect switches under lookups"}, "a report", got[:200])
+            return
+        chk.case(nontrivial_key=("kernel-switch", int(mm.group(1)) > rounds, mm.group(2) == "-"))
+        chk.count("kernel_redirect_switches_under_lookups", rounds)
+        chk.count("kernel_audit_lookups_during_switches", int(mm.group(1)))
+        if mm.group(2) != "-":
+            chk.violation(prop_text,
+                          {"schedule": "%d policy switches (wireserver, imds, hostga in turn; on, off alternating) through update_*_redirect_policy "
+                                       "while 3 tasks call redirector::lookup_audit on the same loaded object" % rounds,
+                           "switches_not_in_the_kernel_map (round:destination:asked)": mm.group(2).split(",")},
+                          expected="policy_map entry present exactly when the last switch said on", observed="differs")
+    finally:
+        try:
+            eng.stdin.close()
+        except OSError:
+            pass
+        try:
+            eng.wait(5)
+        except Exception:
+            eng.kill()
+        eout.close()
 
 
 def kernel_stage(chk, binp, sd, rng, protected, local_ip):
@@ -600,6 +654,7 @@ def run(chk):
     leaked_attempts(chk, binp, sd, pol_keys, pol_val, skip_word, ws_ip, ws_port, local_ip)
     attach_point(chk, binp, sd, rng)
     kernel_stage(chk, binp, sd, rng, protected, local_ip)
+    redirect_switch_under_lookups(chk, binp, sd)
     shutil.rmtree(sd, ignore_errors=True)
     chk.sample({"ops": model_in[:8], "sim": sim_out[:8]})
     if chk.counts.get("uid_ne_gid", 0) == 0 or chk.counts.get("records_expected", 0) == 0:
